@@ -309,6 +309,10 @@ pub struct C18Case {
   /// 0 = Subject pushed by an emitter thread, 1 = the same through observe_on(new thread),
   /// 2 = synchronous cold source
   pub via: u8,
+  /// poll once with another waker first (a future may be polled with a different waker every
+  /// time; the latest one must be woken)
+  #[serde(default)]
+  pub peek_first: bool,
   pub sched: SchedJson,
 }
 
@@ -333,11 +337,11 @@ struct C18Log {
 }
 
 fn c18_strategy(_ctx: &Ctx) -> BoxedStrategy<C18Case> {
-  (0usize..=5, any::<bool>(), 0u8..=2, sched_strategy())
-    .prop_map(|(len, err, via, sched)| {
+  (0usize..=5, any::<bool>(), 0u8..=2, prop::bool::weighted(0.3), sched_strategy())
+    .prop_map(|(len, err, via, peek_first, sched)| {
       let mut script: Vec<Ev> = (0..len).map(|i| Ev::N(100 + i as i64)).collect();
       script.push(if err { Ev::E(7) } else { Ev::C });
-      C18Case { script, via, sched }
+      C18Case { script, via, peek_first, sched }
     })
     .boxed()
 }
@@ -391,7 +395,23 @@ fn c18_check(_ctx: &Ctx, c: &C18Case) -> Report {
     let flag = Arc::new(WakeFlag { m: arx_rt::stdx::sync::Mutex::new(false), cv: arx_rt::stdx::sync::Condvar::new() });
     let waker = std::task::Waker::from(flag.clone());
     let mut cx = std::task::Context::from_waker(&waker);
+    let mut early = None;
+    if c2.peek_first {
+      // somebody else looks at the future once, with a waker of their own
+      let other = Arc::new(WakeFlag { m: arx_rt::stdx::sync::Mutex::new(false), cv: arx_rt::stdx::sync::Condvar::new() });
+      let w2 = std::task::Waker::from(other);
+      let mut cx2 = std::task::Context::from_waker(&w2);
+      if let std::task::Poll::Ready(x) = std::future::Future::poll(std::pin::Pin::new(&mut fut), &mut cx2) {
+        lk(&l2).ready_stamp = Some(arx_rt::stamp());
+        early = Some(x);
+      } else {
+        lk(&l2).polls_pending += 1;
+      }
+    }
     let res = loop {
+      if let Some(x) = early.take() {
+        break x;
+      }
       match std::future::Future::poll(std::pin::Pin::new(&mut fut), &mut cx) {
         std::task::Poll::Ready(x) => {
           lk(&l2).ready_stamp = Some(arx_rt::stamp());
@@ -418,7 +438,7 @@ fn c18_check(_ctx: &Ctx, c: &C18Case) -> Report {
   });
   let l = lk(&log).clone();
   let mut rep = Report::ok();
-  let show = || format!("script={} via={} sched={:?} => {:?} outcome={}", show_script(&c.script), c.via, c.sched, l, out.describe());
+  let show = || format!("script={} via={} peek_first={} sched={:?} => {:?} outcome={}", show_script(&c.script), c.via, c.peek_first, c.sched, l, out.describe());
   rep.sample = Some(show());
   rep.classes.push(format!("via:{}", c.via));
   rep.nontrivial = l.polls_pending >= 1;
